@@ -60,6 +60,12 @@ func RefOrder(es []ipfslog.Entry) []ipfslog.Entry {
 func OracleConvergence(prop string) func(w *Writers, hist []string) []explore.Violation {
 	return func(w *Writers, hist []string) []explore.Violation {
 		var out []explore.Violation
+		if msg, ok := w.Scratch["reload-changed-set"].(string); ok {
+			// loading from disk is one of the delivery routes: in this fault-free world it hands the replica
+			// exactly the entries it held
+			delete(w.Scratch, "reload-changed-set")
+			out = append(out, explore.Violation{Property: prop, Signature: "load-from-disk-changed-entry-set", Detail: msg})
+		}
 		for i, s := range w.Stores {
 			set := w.SetKey(i)
 			obs := w.Observables(i)
